@@ -200,8 +200,12 @@ def zite(c, a, b):
         return SetV(lambda k: zite(c, a.has(k), b.has(k)), zite(c, a.size, b.size), a.kty if a.kty != "any" else b.kty)
     if a is None and b is None:
         return None
-    if isinstance(a, str) and a == b:
+    if isinstance(a, str) and isinstance(b, str) and a == b:
         return a
+    if isinstance(a, str) != isinstance(b, str) and not isinstance(a, (Seq, DictV, SetV, tuple, Opaque)) \
+            and not isinstance(b, (Seq, DictV, SetV, tuple, Opaque)):
+        # a text on one side, a number on the other (a table whose header row holds texts): kept as a guarded pair
+        return Opaque("mixed", cond=c, a=a, b=b)
     if is_scalar(a) and is_scalar(b):
         ka, kb = sort_of(a), sort_of(b)
         if ka != kb:
@@ -565,6 +569,10 @@ def fresh_set(kty, name, idx=(), facts=None):
 
 def values_equal(a, b):
     """Python `==` on scalar-like values -> bool / z3 Bool."""
+    if isinstance(a, Opaque) and a.kind == "mixed":
+        return zite(a.get("cond"), values_equal(a.get("a"), b), values_equal(a.get("b"), b))
+    if isinstance(b, Opaque) and b.kind == "mixed":
+        return values_equal(b, a)
     if a is None or b is None:
         return a is None and b is None
     if isinstance(a, str) or isinstance(b, str):
